@@ -9,7 +9,10 @@ cd $wt || exit 2
 git checkout -q -- . ; rm -f $pkg/$(basename $demo)
 git apply $out/patch.diff || { echo "patch does not apply"; exit 2; }
 go build ./... || { echo "BUILD FAILS"; exit 1; }
-suite=$(go test -vet=off -count=1 ./... 2>&1 | grep -v "no test files" | grep -v "^ok" | grep -v TestSynchronizedTimestamp | grep -v "clock" | head -5)
+runsuite() { go test -vet=off -count=1 ./... 2>&1 | grep -v "no test files" | grep -v "^ok" | grep -v TestSynchronizedTimestamp | grep -v "clock" | grep -E "^(FAIL|---|panic)" | head -8; }
+suite=$(runsuite)
+# other suites may be running on this machine (fixed ports, timing): a failure is looked at twice
+[ -n "$suite" ] && suite=$(runsuite)
 git checkout -q go.mod
 cp $out/$(basename $demo) $pkg/
 with=$(go test -vet=off -count=1 -run "$re" ./$pkg/ 2>&1 | tail -1)
